@@ -48,6 +48,7 @@ type Thread struct {
 	curCaller *frame
 	gen       int
 	lastSite  string
+	panicTrace string
 }
 
 // Decision is one recorded choice.
@@ -395,7 +396,11 @@ func (ex *Exec) onDeadlock(cur *Thread, msg string) {
 }
 
 func (ex *Exec) onProcessPanic(th *Thread, msg string) {
-	msg = msg + th.whereAmI()
+	if th.panicTrace != "" {
+		msg = msg + th.panicTrace
+	} else {
+		msg = msg + th.whereAmI()
+	}
 	if ex.cfg.PanicIsViolation && !ex.concreteOnly {
 		func() {
 			defer func() { recover() }()
